@@ -167,7 +167,13 @@ func c03Replay(raw json.RawMessage) (string, string) {
 		}
 		return sig, detail
 	}
-	sig, detail, acc := c03Schema(cs.Schema, cs.Family, []string{cs.input()})
+	name := cs.Family
+	if i := strings.Index(name, ":"); i >= 0 {
+		name = name[i+1:] // "schema-mutation:<seed>" -> the seed's name, as used in signatures
+	} else if m := map[string]string{"raw-schema-bytes": "raw", "adversarial-declarations": "adversarial"}[name]; m != "" {
+		name = m
+	}
+	sig, detail, acc := c03Schema(cs.Schema, name, []string{cs.input()})
 	if sig == "" {
 		detail = fmt.Sprintf("no panic, terminal result reached (schema accepted: %v)", acc)
 	}
@@ -258,9 +264,9 @@ func c03Run(c *core.Ctx) {
 				fdPos = append(fdPos, p)
 			}
 		}
-		pairVals := []interface{}{float64(0), float64(-1), float64(2), ""}
+		pairVals := []interface{}{float64(0), float64(-1), float64(2), "", "\"", gen.Delete}
 		if !c.Quick() {
-			pairVals = []interface{}{float64(0), float64(-1), float64(2), float64(1 << 31), "", "x", nil}
+			pairVals = []interface{}{float64(0), float64(-1), float64(2), float64(1 << 31), "", "x", nil, "\"", "\n", gen.Delete}
 		}
 		for i := 0; i < len(fdPos); i++ {
 			for j := i + 1; j < len(fdPos); j++ {
